@@ -345,6 +345,9 @@ func (x *Exec) registerLib() {
 	// error reporting of the interpreter: these functions panic with a compile error
 	noret := &libFn{apply: func(f *Frame, st *State, ins ssa.Instruction, args []Value) (Value, bool) {
 		x.note("library spec: output.Errorf / Stringer.Errorf never return (they panic with the compile error)")
+		if f != nil && f.neverErrors() {
+			x.oblige("no-internal-error", "this Errorf call is unreachable", f.where(ins), st, x.B.False())
+		}
 		if f != nil && f.panicHook != nil {
 			f.panicHook(st.clone(), "compile error", ins)
 		}
@@ -394,6 +397,13 @@ func (x *Exec) registerLib() {
 	} {
 		pureUF(n)
 	}
+	// diagnostics: print to the configured output, no effect on interpreter state
+	noeffect := &libFn{apply: func(f *Frame, st *State, ins ssa.Instruction, args []Value) (Value, bool) {
+		x.note("library spec: Output.Warnf / Debugf only print (no effect on interpreter state)")
+		return &Struct{}, true
+	}, mods: noMods}
+	x.lib["(*github.com/cosmos72/gomacro/base/output.Output).Warnf"] = noeffect
+	x.lib["(*github.com/cosmos72/gomacro/base/output.Output).Debugf"] = noeffect
 	x.lib["(*github.com/cosmos72/gomacro/base/output.Stringer).Errorf"] = noret
 	x.lib["github.com/cosmos72/gomacro/base/output.Errorf"] = noret
 }
